@@ -21,7 +21,9 @@ from fractions import Fraction
 from pathlib import Path
 
 VERIF = Path(__file__).resolve().parent.parent
-COQ = VERIF / "coq"
+# VERIF_COQ: a private copy of the Coq tree (cp -a /verif/coq <dir>), so that a run against another repository copy (VERIF_REPO)
+# does not share generated files and compiled objects with runs against /repo
+COQ = Path(os.environ.get("VERIF_COQ") or (VERIF / "coq"))
 REPO = Path(os.environ.get("VERIF_REPO", "/repo"))
 PY = "/venv/bin/python"
 GUARD = "OPENPINCH_VERIF"
